@@ -80,7 +80,25 @@ def run(chk):
     if ndis == 0:
         return chk.finish("proof", nobl, ndis, axioms, RULE)
     drv = wire.Driver()
-    for label, doc, g in graphs.pool(chk, 500, 10000):
+    rngd = __import__("random").Random(chk.seed + 14)
+
+    def with_derived(items):
+        """the graph, then graphs derived from it by the library's own operations after its views were asked for"""
+        for label, doc, g in items:
+            yield label, doc, g
+            try:
+                if len(g.demes) >= 2 and rngd.random() < 0.5:
+                    g.predecessors(), g.successors(), g.discrete_demographic_events()
+                    names = [d.name for d in g.demes]
+                    a, c = rngd.sample(names, 2)
+                    m = rngd.choice([{a: c, c: a}, {a: a + "_x"}, {n: n + "_r" for n in names}])
+                    yield label + "|rename", None, g.rename_demes(m)
+                if g.generation_time not in (None, 1) and rngd.random() < 0.3:
+                    g.predecessors()
+                    yield label + "|in_generations", None, g.in_generations()
+            except Exception as e:
+                chk.count("derived_failed_" + type(e).__name__)
+    for label, doc, g in with_derived(graphs.pool(chk, 500, 10000)):
         payload = gen.graph_payload(g)
         chk.case(payload, nontrivial=any(d.ancestors for d in g.demes))
         rep = dict(op="ancestry", graph=payload, label=label)
